@@ -225,6 +225,14 @@ class Context:
         return ctx
 
 
+def _join_names(names: Iterable[str]) -> str:
+    # Names may contain the separator: escape it, so that different
+    # name lists never produce the same joined string.
+    return ":".join(
+        n.replace("\\", "\\\\").replace(":", "\\:") for n in names
+    )
+
+
 def _get_collection_type_id(
     coll_type: str,
     subtypes: list[uuid.UUID],
@@ -235,7 +243,7 @@ def _get_collection_type_id(
 
     string_id = f'{coll_type}\x00{":".join(map(str, subtypes))}'
     if element_names:
-        string_id += f'\x00{":".join(element_names)}'
+        string_id += f'\x00{_join_names(element_names)}'
     return uuidgen.uuid5(s_obj.TYPE_ID_NAMESPACE, string_id)
 
 
@@ -252,7 +260,7 @@ def _get_object_shape_id(
     parts = [coll_type]
     parts.append(":".join(map(str, subtypes)))
     if element_names:
-        parts.append(":".join(element_names))
+        parts.append(_join_names(element_names))
     if cardinalities:
         parts.append(":".join(chr(c._value_) for c in cardinalities))
     string_id = "\x00".join(parts)
